@@ -27,34 +27,43 @@ RULE = ("(soup) a case is one generated string - 1..10 atoms drawn from operator
         "when the intended result set is neither empty nor the whole corpus; distinct = distinct (configuration, type "
         "tree of the intended expression).")
 ASSUMPTIONS = [
-    "totality searches run on a single-segment index without deletions (search(limit=None), search(limit=3), "
-    "docs_for_query) and on a three-segment index with deleted documents (search(limit=None), search(limit=3)); "
-    "only exception types are judged there, result sets are compared in the language monitor on the first index",
+    "totality searches run on a single-segment index without deletions (search(limit=None), search(limit=3)) and on a "
+    "three-segment index with deleted documents (same two calls); only exception types are judged there, result sets "
+    "are compared in the language monitor on the first index",
+    "QueryParser(schema=None) is documented as 'usually for testing purposes' (the text is neither analysed nor "
+    "validated against field types): its parse() is monitored for totality but its queries are not run",
+    "fuzzy edit distances in generated strings are <= 4 (FuzzyTermPlugin documents that distances greater than 2 "
+    "'can take an extremely long time'; ~9 on a 20-character word took 9 minutes in the pilot: slow, not a crash)",
     "language: parsed and intended queries are compared as *document sets* on one corpus (single segment, no deletions, "
-    "limit=None); scores and boosts values are not compared (a boost only has to leave the selected set unchanged)",
+    "docs_for_query); scores and boost values are not compared (a boost only has to leave the selected set unchanged)",
     "language oracle: a case fails only when the parsed query's documents differ from BOTH the independent Python-set "
     "reading and the same intended tree built from whoosh.query objects run through the same engine; where those two "
     "disagree with each other (an engine defect, other properties) the case is counted in lang.engine_vs_model and "
     "either answer is accepted",
     "language population A keeps constructs that normalize() (applied by parse()) is known to rewrite with a change "
     "of meaning (property C15) out of the expression: no `*:*`, no `field:*`, no empty/inverted ranges, at most one "
-    "range per field per expression, no duplicate-free requirement otherwise; population B (lang.popB) puts two "
-    "ranges on the same multi-valued field and classifies a disagreement that disappears with parse(normalize=False) "
-    "as the C15 mechanism",
+    "range per effective field per expression (field groups, aliases and multi-field defaults resolved); population B "
+    "(lang.popB, ~6%) allows several ranges on one multi-valued field and classifies a disagreement that disappears "
+    "with parse(normalize=False) and shows two ranges of one field inside an And as the C15 mechanism "
+    "(known:c15-and-range-intersect-merge)",
     "NOT is applied to one atom or one parenthesised group (never NOT NOT x); a chain of the *same* binary operator "
     "(a ANDNOT b ANDNOT c) is read left-associatively as documented in parsing.rst ('By default, infix operators are "
     "left-associative'); different binary operators are always parenthesised when nested, as the statement requires",
     "vocabulary of the language corpus is lowercase ASCII words that the shipped analyzers map to themselves and that "
-    "are not stop words (analysis agreement is C17's subject); the words do include the letters 'to' and 'or'/'and' as "
-    "substrings",
-    "date terms use the documented YYYYMMDD[hh] forms; date *ranges* are generated inclusive only (DATETIME.parse_range "
-    "documents no reading for exclusive brackets around partial dates)",
+    "are not stop words (analysis agreement is C17's subject); the words do include the letters 'to', 'or', 'and', "
+    "'not' as substrings; a range bound spelled exactly 'to' is not generated bare (ambiguous with the separator; the "
+    "parser's own tests quote it)",
+    "date terms use the documented YYYY[MM[DD[hh]]] forms of the DATETIME field; with the DateParserPlugin only a year "
+    "or YYYYMMDD, and ranges only between fully specified days (the plugin fills unspecified parts of one end from "
+    "the other end/base date by design); date ranges are closed and inclusive (dates.rst: open-ended ranges not "
+    "supported; no reading documented for exclusive brackets around partial dates)",
+    "comparison signs (GtLtPlugin) are generated for numeric and keyword fields, not for dates; a single-quoted term "
+    "or a comparison is not boosted directly (no documented syntax)",
     "SimpleParser/DisMaxParser language: '+w' required, '-w' prohibited, bare words/phrases optional (flat OR) as "
     "documented for PlusMinusPlugin; an expression with only prohibited words is not generated (no documented reading)",
     "pathological sizes (thousands of nested parentheses hitting the interpreter recursion limit) are not generated; "
-    "nesting depth in soup strings is <= 40",
-    "a hang is not observed as such: every case is bounded in size (<= ~120 characters, fuzzy distance is one digit) "
-    "and the shard watchdog of the framework turns a hang into inconclusive",
+    "nesting depth in soup strings is <= 300; every case is bounded (<= ~1500 characters) and a hang is turned into "
+    "inconclusive by the framework's shard watchdog, not into a verdict",
 ]
 SHARDS = {"quick": 4, "thorough": 16}
 BUDGET_S = {"quick": 90, "thorough": 700}
@@ -290,7 +299,7 @@ def gen_soup(rng, W):
             classes.append("_" if sep else "")
         return "".join(parts), tuple(classes)
     if r < 0.78:
-        depth = rng.choice([1, 2, 3, 5, 10, 20, 40])
+        depth = rng.choice([1, 2, 3, 5, 10, 20, 40, 40, 120, 300])
         opener = rng.choice(["(", "t:(", "NOT (", "(a ", "((", "\"(", "k:(b OR "])
         inner = rng.choice(["", "a", "a OR b", "AND", "NOT", "n:1", "*", "[a TO b]"])
         closer = rng.choice([")", ")", ")^2", "", ") AND ", ")~"])
